@@ -13,6 +13,7 @@ import (
 	"runtime"
 	"sort"
 	"sync"
+	"sync/atomic"
 	"time"
 
 	"github.com/tonkeeper/tongo/liteclient"
@@ -155,6 +156,26 @@ func Drive(in string, index int, w *ev.Writer, seed int64, tracePath string) err
 	rec.emit(map[string]any{"k": "ready"})
 	sv.splitOn.Store(true) // the split policy applies from here on (the initial connections are up)
 	cen0, _ := census()
+	// an application thread that watches the client through its public read-only accessors while everything else goes on
+	// (no hook, no synchronisation of its own: whatever it reads must be protected by the client)
+	pollStop := make(chan struct{})
+	var polls atomic.Int64
+	go func() {
+		for {
+			select {
+			case <-pollStop:
+				return
+			default:
+			}
+			_ = client.IsOK()
+			_ = client.AverageRoundTrip()
+			_ = c0.Status()
+			_ = c0.AverageRoundTrip()
+			polls.Add(1)
+			time.Sleep(150 * time.Microsecond)
+		}
+	}()
+	defer close(pollStop)
 
 	// ---------------------------------------------------------------- callers
 	var mu sync.Mutex
@@ -371,6 +392,7 @@ func Drive(in string, index int, w *ev.Writer, seed int64, tracePath string) err
 		}
 	}
 	res["answers"], res["errors"] = nAns, nErr
+	res["polls"] = int(polls.Load())
 	var unanswered []int
 	for _, c := range sc.MustAnswer {
 		for _, r := range results {
